@@ -49,6 +49,13 @@ def run_case(case):
 
     rng = pipeline.case_rng(case, 5)
     desc, realised = pipeline.model_from_case(case)
+    if case["index"] % 6 == 4 and "desc" not in case and not case.get("template") and desc["states"]:
+        # a state with the legal name 'value' (asset value, house value): the reported state column
+        # of that name must still be the state (C03 speaks about the states, whatever they are called)
+        sn = [s_ for s_, _ in desc["states"]]
+        desc = pipeline.rename_variables(desc, {sn[int(rng.integers(0, len(sn)))]: "value"})
+        pipeline.LAST["desc"] = desc
+        realised = {**realised, "state_named_value": True}
     ref = Ref(desc)
     params = desc["params"]
     if ref.stoch:
